@@ -65,10 +65,15 @@ theorem binaryOp_mem (op name : String) (h : binaryOp op = some name) : name ∈
 
 theorem cres_ok_inj {α} {a b : α} (h : CRes.ok a = CRes.ok b) : a = b := by cases h; rfl
 
+/-- what a hook may answer with `ok`: only shapes `convertFilterExpr` returns -/
+def HookOut (hk : Hook) : Prop := ∀ n as r, hk n as = some (.ok r) → Out r
+
+theorem hookOut_noHook : HookOut noHook := by intro n as r h; simp [noHook] at h
+
 mutual
-theorem convertG_out (e : CExpr) (fe : FilterExpr) (h : convertG true e = .ok fe) : Out fe := by
+theorem convertH_out (hk : Hook) (hh : HookOut hk) (e : CExpr) (fe : FilterExpr) (h : convertG hk true e = .ok fe) : Out fe := by
   rw [convertG] at h
-  cases hi : convertImplG true e with
+  cases hi : convertImplG hk true e with
   | err => simp [hi] at h
   | panic p => simp [hi] at h
   | ok r =>
@@ -78,39 +83,39 @@ theorem convertG_out (e : CExpr) (fe : FilterExpr) (h : convertG true e = .ok fe
     · rename_i hop
       have := cres_ok_inj h
       subst this
-      rcases convertImplG_out e r hi with rfl | ho
+      rcases convertImplH_out hk hh e r hi with rfl | ho
       · exact absurd rfl hop
       · exact ho
 termination_by (sizeOf e, 2)
-theorem convertImplG_out (e : CExpr) (fe : FilterExpr) (h : convertImplG true e = .ok fe) : fe = invalid ∨ Out fe := by
+theorem convertImplH_out (hk : Hook) (hh : HookOut hk) (e : CExpr) (fe : FilterExpr) (h : convertImplG hk true e = .ok fe) : fe = invalid ∨ Out fe := by
   rw [convertImplG] at h
   split at h
   · have := cres_ok_inj h; subst this; exact Or.inr (Out.str _)
   · have := cres_ok_inj h; subst this; exact Or.inr (Out.int _)
-  · exact convertStructG_out e fe h
+  · exact convertStructH_out hk hh e fe h
 termination_by (sizeOf e, 1)
-theorem convertStructG_out : (e : CExpr) → (fe : FilterExpr) → convertStructG true e = .ok fe → fe = invalid ∨ Out fe
+theorem convertStructH_out (hk : Hook) (hh : HookOut hk) : (e : CExpr) → (fe : FilterExpr) → convertStructG hk true e = .ok fe → fe = invalid ∨ Out fe
   | .paren _ x, fe, h => by
     rw [convertStructG] at h
-    exact Or.inr (convertG_out x fe h)
+    exact Or.inr (convertH_out hk hh x fe h)
   | .unary _ op x, fe, h => by
     rw [convertStructG] at h
-    cases hx : convertG true x with
+    cases hx : convertG hk true x with
     | err => simp [hx] at h
     | panic p => simp [hx] at h
     | ok x' =>
       simp only [hx] at h
       split at h
       · have := cres_ok_inj h; subst this
-        exact Or.inr (Out.not _ (convertG_out x x' hx))
+        exact Or.inr (Out.not _ (convertH_out hk hh x x' hx))
       · have := cres_ok_inj h; subst this; exact Or.inl rfl
   | .binary _ op x y, fe, h => by
     rw [convertStructG] at h
-    cases hx : convertG true x with
+    cases hx : convertG hk true x with
     | err => simp [hx] at h
     | panic p => simp [hx] at h
     | ok x' =>
-      cases hy : convertG true y with
+      cases hy : convertG hk true y with
       | err => simp [hx, hy] at h
       | panic p => simp [hx, hy] at h
       | ok y' =>
@@ -120,7 +125,7 @@ theorem convertStructG_out : (e : CExpr) → (fe : FilterExpr) → convertStruct
         | some name =>
           simp only [hb] at h
           have := cres_ok_inj h; subst this
-          exact Or.inr (Out.bin name x' y' (binaryOp_mem op name hb) (convertG_out x x' hx) (convertG_out y y' hy))
+          exact Or.inr (Out.bin name x' y' (binaryOp_mem op name hb) (convertH_out hk hh x x' hx) (convertH_out hk hh y y' hy))
   | .sel a x n, fe, h => by
     rw [convertStructG] at h
     cases hs : inspect (.sel a x n) with
@@ -175,13 +180,24 @@ theorem convertStructG_out : (e : CExpr) → (fe : FilterExpr) → convertStruct
                 · have := cres_ok_inj h; subst this; exact Or.inr (Out.filter _ _)
                 · cases h
                 · cases h
-              · -- the calls converted after convertExprList
-                cases hl : convertListG true args with
+              · -- a local helper: `expandMacro`'s result is `convertFilterExpr`'s
+                cases hq : askHook hk f args with
+                | some r =>
+                  simp only [hq] at h
+                  subst h
+                  unfold askHook at hq
+                  split at hq
+                  · exact Or.inr (hh _ _ _ hq)
+                  · cases hq
+                | none =>
+                simp only [hq] at h
+                -- the calls converted after convertExprList
+                cases hl : convertListG hk true args with
                 | err => simp [hl] at h
                 | panic p => simp [hl] at h
                 | ok args' =>
                   simp only [hl] at h
-                  have hargs := convertListG_out args args' hl
+                  have hargs := convertListH_out hk hh args args' hl
                   split at h
                   · cases h
                   · rename_i har
@@ -229,17 +245,17 @@ theorem convertStructG_out : (e : CExpr) → (fe : FilterExpr) → convertStruct
     · have := cres_ok_inj h; subst this; exact Or.inl rfl
     all_goals (intros; contradiction)
 termination_by e => (sizeOf e, 0)
-theorem convertListG_out : (es : List CExpr) → (fes : List FilterExpr) → convertListG true es = .ok fes →
+theorem convertListH_out (hk : Hook) (hh : HookOut hk) : (es : List CExpr) → (fes : List FilterExpr) → convertListG hk true es = .ok fes →
     (∀ a ∈ fes, Out a) ∧ (es ≠ [] → fes ≠ [])
   | [], fes, h => by
     rw [convertListG] at h; have := cres_ok_inj h; subst this; simp
   | a :: as, fes, h => by
     rw [convertListG] at h
-    cases ha : convertG true a with
+    cases ha : convertG hk true a with
     | err => simp [ha] at h
     | panic p => simp [ha] at h
     | ok a' =>
-      cases hr : convertListG true as with
+      cases hr : convertListG hk true as with
       | err => simp [ha, hr] at h
       | panic p => simp [ha, hr] at h
       | ok as' =>
@@ -248,10 +264,14 @@ theorem convertListG_out : (es : List CExpr) → (fes : List FilterExpr) → con
         refine ⟨?_, by simp⟩
         intro b hb
         rcases List.mem_cons.mp hb with rfl | hb
-        · exact convertG_out a _ ha
-        · exact (convertListG_out as as' hr).1 b hb
+        · exact convertH_out hk hh a _ ha
+        · exact (convertListH_out hk hh as as' hr).1 b hb
 termination_by es => (sizeOf es, 0)
 end
+
+
+theorem convertG_out (e : CExpr) (fe : FilterExpr) (h : convertG noHook true e = .ok fe) : Out fe :=
+  convertH_out noHook hookOut_noHook e fe h
 
 /-- the converter model never panics (before and after the arity repair): every partial operation of
 `convertFilterExpr` outside helper bodies is guarded -/
@@ -287,46 +307,55 @@ theorem inspect_noPanic (e : CExpr) (p : Panic) : inspect e ≠ .panic p := by
     · simp
   · simp
 
+/-- a hook that does not panic on the names an expression calls -/
+def HookQuiet (hk : Hook) (names : List String) : Prop := ∀ n ∈ names, ∀ as p, hk n as ≠ some (.panic p)
+
+theorem hookQuiet_noHook (names : List String) : HookQuiet noHook names := by intro n _ as p; simp [noHook]
+
+theorem HookQuiet.mono {hk : Hook} {l l' : List String} (h : HookQuiet hk l) (hs : ∀ n ∈ l', n ∈ l) : HookQuiet hk l' :=
+  fun n hn => h n (hs n hn)
+
 mutual
-theorem convertG_noPanic (ar : Bool) (e : CExpr) (p : Panic) : convertG ar e ≠ .panic p := by
+theorem convertH_noPanic (hk : Hook) (ar : Bool) (e : CExpr) (hh : HookQuiet hk (callNames e)) (p : Panic) : convertG hk ar e ≠ .panic p := by
   rw [convertG]
-  cases hi : convertImplG ar e with
+  cases hi : convertImplG hk ar e with
   | err => simp
-  | panic q => exact absurd hi (convertImplG_noPanic ar e q)
+  | panic q => exact absurd hi (convertImplH_noPanic hk ar e hh q)
   | ok r => simp only; split <;> simp
 termination_by (sizeOf e, 2)
-theorem convertImplG_noPanic (ar : Bool) (e : CExpr) (p : Panic) : convertImplG ar e ≠ .panic p := by
+theorem convertImplH_noPanic (hk : Hook) (ar : Bool) (e : CExpr) (hh : HookQuiet hk (callNames e)) (p : Panic) : convertImplG hk ar e ≠ .panic p := by
   rw [convertImplG]
   split
   · simp
   · simp
-  · exact convertStructG_noPanic ar e p
+  · exact convertStructH_noPanic hk ar e hh p
 termination_by (sizeOf e, 1)
-theorem convertStructG_noPanic (ar : Bool) : (e : CExpr) → (p : Panic) → convertStructG ar e ≠ .panic p
-  | .paren _ x, p => by rw [convertStructG]; exact convertG_noPanic ar x p
-  | .unary _ op x, p => by
+theorem convertStructH_noPanic (hk : Hook) (ar : Bool) : (e : CExpr) → HookQuiet hk (callNames e) → (p : Panic) → convertStructG hk ar e ≠ .panic p
+  | .paren _ x, hh, p => by
+    rw [convertStructG]; exact convertH_noPanic hk ar x (hh.mono (by intro n hn; simpa [callNames] using hn)) p
+  | .unary _ op x, hh, p => by
     rw [convertStructG]
-    cases hx : convertG ar x with
+    cases hx : convertG hk ar x with
     | err => simp
-    | panic q => exact absurd hx (convertG_noPanic ar x q)
+    | panic q => exact absurd hx (convertH_noPanic hk ar x (hh.mono (by intro n hn; simpa [callNames] using hn)) q)
     | ok x' => simp only; split <;> simp
-  | .binary _ op x y, p => by
+  | .binary _ op x y, hh, p => by
     rw [convertStructG]
-    cases hx : convertG ar x with
+    cases hx : convertG hk ar x with
     | err => simp
-    | panic q => exact absurd hx (convertG_noPanic ar x q)
+    | panic q => exact absurd hx (convertH_noPanic hk ar x (hh.mono (by intro n hn; simp [callNames, hn])) q)
     | ok x' =>
-      cases hy : convertG ar y with
+      cases hy : convertG hk ar y with
       | err => simp
-      | panic q => exact absurd hy (convertG_noPanic ar y q)
+      | panic q => exact absurd hy (convertH_noPanic hk ar y (hh.mono (by intro n hn; simp [callNames, hn])) q)
       | ok y' => simp only; split <;> simp
-  | .sel a x n, p => by
+  | .sel a x n, _, p => by
     rw [convertStructG]
     cases hs : inspect (.sel a x n) with
     | err => simp
     | panic q => exact absurd hs (inspect_noPanic _ q)
     | ok s => simp only; split <;> simp
-  | .call a f args, p => by
+  | .call a f args, hh, p => by
     rw [convertStructG]
     cases hs : inspect (.call a f args) with
     | err => simp
@@ -359,51 +388,66 @@ theorem convertStructG_noPanic (ar : Bool) : (e : CExpr) → (p : Panic) → con
               · simp
             · split
               · split <;> simp
-              · cases hl : convertListG ar args with
-                | err => simp
-                | panic q => exact absurd hl (convertListG_noPanic ar args q)
-                | ok args' =>
+              · cases hq : askHook hk f args with
+                | some r =>
                   simp only
-                  split
-                  · simp
-                  · split
+                  unfold askHook at hq
+                  split at hq
+                  · rename_i name
+                    intro he
+                    subst he
+                    exact hh name (by simp [callNames]) _ _ hq
+                  · cases hq
+                | none =>
+                  simp only
+                  cases hl : convertListG hk ar args with
+                  | err => simp
+                  | panic q => exact absurd hl (convertListH_noPanic hk ar args (hh.mono (by intro n hn; simp [callNames, hn])) q)
+                  | ok args' =>
+                    simp only
+                    split
                     · simp
                     · split
-                      · split <;> simp
+                      · simp
                       · split
                         · split <;> simp
-                        · simp
-  | .lit _ _ _, p => by
+                        · split
+                          · split <;> simp
+                          · simp
+  | .lit _ _ _, _, p => by
     rw [convertStructG]
     · simp
     all_goals (intros; contradiction)
-  | .ident _ _, p => by
+  | .ident _ _, _, p => by
     rw [convertStructG]
     · simp
     all_goals (intros; contradiction)
-  | .index _ _ _, p => by
+  | .index _ _ _, _, p => by
     rw [convertStructG]
     · simp
     all_goals (intros; contradiction)
-  | .other _, p => by
+  | .other _, _, p => by
     rw [convertStructG]
     · simp
     all_goals (intros; contradiction)
 termination_by e => (sizeOf e, 0)
-theorem convertListG_noPanic (ar : Bool) : (es : List CExpr) → (p : Panic) → convertListG ar es ≠ .panic p
-  | [], p => by rw [convertListG]; simp
-  | a :: as, p => by
+theorem convertListH_noPanic (hk : Hook) (ar : Bool) : (es : List CExpr) → HookQuiet hk (callNamesL es) → (p : Panic) → convertListG hk ar es ≠ .panic p
+  | [], _, p => by rw [convertListG]; simp
+  | a :: as, hh, p => by
     rw [convertListG]
-    cases ha : convertG ar a with
+    cases ha : convertG hk ar a with
     | err => simp
-    | panic q => exact absurd ha (convertG_noPanic ar a q)
+    | panic q => exact absurd ha (convertH_noPanic hk ar a (hh.mono (by intro n hn; simp [callNamesL, hn])) q)
     | ok a' =>
-      cases hr : convertListG ar as with
+      cases hr : convertListG hk ar as with
       | err => simp
-      | panic q => exact absurd hr (convertListG_noPanic ar as q)
+      | panic q => exact absurd hr (convertListH_noPanic hk ar as (hh.mono (by intro n hn; simp [callNamesL, hn])) q)
       | ok as' => simp
 termination_by es => (sizeOf es, 0)
 end
+
+theorem convertG_noPanic (ar : Bool) (e : CExpr) (p : Panic) : convertG noHook ar e ≠ .panic p :=
+  convertH_noPanic noHook ar e (hookQuiet_noHook _) p
 
 /-! ## 4. `Out` lies inside `wfFE` -/
 
@@ -708,8 +752,9 @@ theorem chainArg0_noPanic (as : List CExpr) (p : Panic) : chainArg0 true as ≠ 
   cases as <;> simp [chainArg0]
 
 /-- `convertRuleExpr` after fixes/c06-chain-arity.diff: no clause of the chain can make it panic -/
-theorem convertRuleG_noPanic (dec : Bytes → String) (c : Chain) : ∀ p, convertRuleG true dec c ≠ .panic p := by
-  unfold convertRuleG
+theorem convertRuleW_noPanic (conv : CExpr → CRes FilterExpr) (hconv : ∀ e p, conv e ≠ .panic p)
+    (dec : Bytes → String) (c : Chain) : ∀ p, convertRuleW conv true dec c ≠ .panic p := by
+  unfold convertRuleW
   intro p
   split
   · simp
@@ -735,7 +780,7 @@ theorem convertRuleG_noPanic (dec : Bytes → String) (c : Chain) : ∀ p, conve
       | some as =>
         apply bind_noPanic (chainArg0_noPanic as)
         intro a
-        exact convertG_noPanic true a
+        exact hconv a
     intro wh
     apply bind_noPanic
     · cases c.suggestArgs with
@@ -773,12 +818,16 @@ theorem convertRuleG_noPanic (dec : Bytes → String) (c : Chain) : ∀ p, conve
             intro s q; simp
       · intro dr q; simp
 
+theorem convertRuleG_noPanic (dec : Bytes → String) (c : Chain) : ∀ p, convertRuleG true dec c ≠ .panic p :=
+  convertRuleW_noPanic _ (convertG_noPanic true) dec c
+
 theorem toFE_zero (dec : Bytes → String) : (toFE dec FilterExpr.zero).op = fInvalid := rfl
 
 /-- a rule the repaired converter produces has a Where clause inside the loader's domain -/
-theorem convertRuleG_wf (dec : Bytes → String) (c : Chain) (r : Loader.Rule) (h : convertRuleG true dec c = .ok r) :
+theorem convertRuleW_wf (conv : CExpr → CRes FilterExpr) (hconv : ∀ e fe, conv e = .ok fe → Out fe)
+    (dec : Bytes → String) (c : Chain) (r : Loader.Rule) (h : convertRuleW conv true dec c = .ok r) :
     wfRule r = true := by
-  unfold convertRuleG at h
+  unfold convertRuleW at h
   split at h
   · cases h
   · obtain ⟨alts, _, h⟩ := bind_ok h
@@ -797,8 +846,12 @@ theorem convertRuleG_wf (dec : Bytes → String) (c : Chain) (r : Loader.Rule) (
         exact Or.inl rfl
       | some as =>
         simp only [hw] at hwh
-        obtain ⟨a, _, hconv⟩ := bind_ok hwh
-        exact Or.inr ((out_good dec wh (convertG_out a wh hconv)).1 _)
+        obtain ⟨a, _, hconv'⟩ := bind_ok hwh
+        exact Or.inr ((out_good dec wh (hconv a wh hconv')).1 _)
+
+theorem convertRuleG_wf (dec : Bytes → String) (c : Chain) (r : Loader.Rule) (h : convertRuleG true dec c = .ok r) :
+    wfRule r = true :=
+  convertRuleW_wf _ convertG_out dec c r h
 
 theorem convertFileG_wf (dec : Bytes → String) (gs : List SrcGroup) (f : Loader.File) (h : convertFileG true dec gs = .ok f) :
     Loader.wfFile f = true := by
